@@ -12,6 +12,9 @@ open OFCore
 
 /-! ## values: the declared value, cast, at the instance's index and at the period its key denotes -/
 
+end OFCore.Bld
+namespace OFCore
+open Bld in
 /-- **C12_value_placed** (person entity).  Whatever the document, if the persons are accepted,
 then for every instance, every variable entry of it and every `(period key, value)` pair with a
 non-null value — provided no later pair of the same entry spells the same period and no later
@@ -73,6 +76,8 @@ theorem C12_value_placed (sys : Sys) (dp : Option String) (kvs : List (DKey × D
   refine ⟨val, arr, hval, ?_, ?_, hv'⟩
   · rw [hdecomp]; exact harr
   · rw [hl', hlen]
+end OFCore
+namespace OFCore.Bld
 
 
 /-! ## entities, memberships, roles -/
@@ -84,6 +89,9 @@ def listedPersons (g : GroupKind) (kvs : List (DKey × Doc)) : List String := kv
 def leftOut (g : GroupKind) (personsIds : List String) (kvs : List (DKey × Doc)) : List String :=
   personsIds.filter (fun p => !(listedPersons g kvs).contains p)
 
+end OFCore.Bld
+namespace OFCore
+open Bld in
 /-- **C12_entities.**  One entity per declared instance, ids in declaration order: the persons
 are the keys of the persons object; a declared group kind has its declared instances followed by
 one fresh group per person left out (named after the person, in person order); a group kind the
@@ -117,7 +125,12 @@ theorem C12_entities (sys : Sys) (dp : Option String) :
     cases hr : g.flatRoles.head? with
     | none => rw [hr] at h; cases h
     | some r0 => rw [hr] at h; cases h; exact ⟨rfl, rfl, rfl, r0, rfl, rfl⟩
+end OFCore
+namespace OFCore.Bld
 
+end OFCore.Bld
+namespace OFCore
+open Bld in
 /-- **C12_membership_roles.**  If a group kind is accepted then
 (1) the persons listed by its instances are pairwise distinct and declared;
 (2) the `t`-th person listed under role `r` of an instance belongs to that instance's group, with
@@ -201,7 +214,12 @@ theorem C12_membership_roles (sys : Sys) (dp : Option String) (g : GroupKind) (p
       have := applyM_mem personsIds.length (acc.mws ++ own) hallnd w hw (List.idxOf_lt_length_of_mem hpm)
       rw [hm, hr]
       exact ⟨this.1, r0, hr0, this.2⟩
+end OFCore
+namespace OFCore.Bld
 
+end OFCore.Bld
+namespace OFCore
+open Bld in
 /-- **C12_own_group.**  A person left out of a group kind whose id is not the id of a declared group
 of that kind is the only member of a fresh group appended after the declared ones; different
 persons left out get different groups.  (When a declared group has the id of the person, the
@@ -266,6 +284,8 @@ theorem C12_own_group (sys : Sys) (dp : Option String) (g : GroupKind) (personsI
           simpa using List.idxOf_lt_length_of_mem this
         have := Option.some.inj hcontra
         omega
+end OFCore
+namespace OFCore.Bld
 
 
 /-! ## the flush: shorter periods first, longer ones fill what is still unknown -/
@@ -360,6 +380,9 @@ theorem flush_keeps (si : SetInput) (hsi : SetInputOK si) (buf : Buffer) (var : 
       · rw [if_neg hz] at h1
         exact hsi.keeps s s₁ var count q _ hne h1 k x (fun e => hk q List.mem_cons_self e.symm) hx
 
+end OFCore.Bld
+namespace OFCore
+open Bld in
 /-- **C12_longer_fills_gaps.**  For every buffer and every variable, the periods handed to
 `set_input` are a permutation of the buffered ones, sorted by (unit weight, size): a period is
 never written before a period of a lighter unit, nor before a shorter one of the same unit
@@ -379,7 +402,7 @@ theorem C12_longer_fills_gaps (buf : Buffer) (v : String) (ps : List Period)
       (tile (count / values.length) values).length = count →
       alGet s' (v, q) = some (tile (count / values.length) values)) := by
   obtain ⟨qs, hq, rfl⟩ := sortedPeriods_ok h
-  refine ⟨List.pairwise_mergeSort periodLe_trans periodLe_total qs, ⟨qs, ?_, List.mergeSort_perm qs periodLe⟩, ?_⟩
+  refine ⟨sortBy_pairwise periodLe periodLe_trans periodLe_total qs, ⟨qs, ?_, sortBy_perm periodLe qs⟩, ?_⟩
   · have := mapE_forall₂ _ _ _ hq
     clear hq h
     generalize varKeys buf v = keys at this
@@ -392,7 +415,7 @@ theorem C12_longer_fills_gaps (buf : Buffer) (v : String) (ps : List Period)
       | ok p => rw [hp] at hab; cases hab; rfl
   · intro si hsi var count s s' hname hne hnd hfold q hqm hunk hunit hsize values hvals hz hlen
     subst hname
-    have hsorted := List.pairwise_mergeSort periodLe_trans periodLe_total qs
+    have hsorted := sortBy_pairwise periodLe periodLe_trans periodLe_total qs
     obtain ⟨pre, post, hsplit⟩ := List.append_of_mem hqm
     rw [hsplit] at hfold hnd
     -- run up to q, then q itself, then the rest
@@ -431,10 +454,15 @@ theorem C12_longer_fills_gaps (buf : Buffer) (v : String) (ps : List Period)
     subst hq'q
     rw [List.nodup_append] at hnd
     exact (List.nodup_cons.mp hnd.2.1).1 hq'
+end OFCore
+namespace OFCore.Bld
 
 
 /-! ## spelling of period keys -/
 
+end OFCore.Bld
+namespace OFCore
+open Bld in
 /-- **C12_spelling_invariant.**  Two fully specified documents that differ only in how period keys
 are spelt (`TopEq`: same entities, same instances in the same order, same variables, pairwise
 `parseKey k = parseKey k'` and equal values) give the same result — the same simulation or the
@@ -450,7 +478,12 @@ theorem C12_spelling_invariant (sys : Sys) (dp : Option String) (si : SetInput) 
       layAxis sys dp entKey step cell cnt multi coords buf { a with period := some k } =
       layAxis sys dp entKey step cell cnt multi coords buf { a with period := some k' }) :=
   ⟨buildFromEntities_congr sys dp si, setInputDoc_congr sys si, layAxis_congr sys dp⟩
+end OFCore
+namespace OFCore.Bld
 
+end OFCore.Bld
+namespace OFCore
+open Bld in
 /-- The statement for `build_from_dict`, proved for documents none of whose top-level keys is a
 singular entity key or a variable name (the fully specified shape and the fall-through of repair
 C12d).  Full statement: the same for every document, with `InstEq` on the entries under a singular
@@ -478,6 +511,8 @@ theorem C12_spelling_invariant_dict_partial (sys : Sys) (dp : Option String) (si
     ← hkey (fun k => keyIn (sys.vars.map (·.name)) k), ← hall, hk, hv, he, he']
   simp only [Bool.false_eq_true, if_false, false_or, Bool.not_false, true_and]
   rw [buildFromEntities_congr sys dp si kvs kvs' h]
+end OFCore
+namespace OFCore.Bld
 
 
 /-! ## axes -/
@@ -489,6 +524,9 @@ theorem replicate_tile {α : Type} (d : α) (step : Nat) : ∀ cell,
     rw [tile_eq_copies, copies_succ, ← tile_eq_copies, ← replicate_tile d step c, Nat.succ_mul,
       List.replicate_append_replicate]
 
+end OFCore.Bld
+namespace OFCore
+open Bld in
 /-- **C12_axes_concat.**  Expanding over axes is concatenating the copies:
 (1) every entity has `cell` times its instances; the ids of copy `c` are the prototype's ids
 followed by the running index `c·n + i`; the roles of every copy are the prototype's; the
@@ -561,6 +599,8 @@ theorem C12_axes_concat :
               · exact hl
             refine ⟨?_, fun k hk => alGet_alSet_ne _ _ _ _ hk⟩
             rw [alGet_alSet_same, strideSet_copies proto vals arr' a.index step cell hl hidx hs]
+end OFCore
+namespace OFCore.Bld
 
 
 /-! ## refusals -/
@@ -568,6 +608,9 @@ theorem C12_axes_concat :
 /-- every group kind has a role (`flattened_roles[0]` exists) -/
 def Sys.RolesOK (sys : Sys) : Prop := ∀ g ∈ sys.groups, g.flatRoles ≠ []
 
+end OFCore.Bld
+namespace OFCore
+open Bld in
 /-- **C12_refuses_class.**  Whatever the document, an error of the entity phase of
 `build_from_entities` (persons, groups, memberships, buffered values) is never an ordinary
 exception: it is a situation error (or the document uses a value form outside the model). -/
@@ -596,7 +639,12 @@ theorem C12_refuses_class (sys : Sys) (hsys : sys.RolesOK) (dp : Option String)
               | error e' => rw [hg] at h; cases h; exact groupsStep_error (hl g List.mem_cons_self) hg
               | ok st' => rw [hg] at h; exact ih (fun g' hg' => hl g' (List.mem_cons_of_mem _ hg')) st' e h
           exact this sys.groups hsys _ e h
+end OFCore
+namespace OFCore.Bld
 
+end OFCore.Bld
+namespace OFCore
+open Bld in
 /-- **C12_refuses** (1): unknown entity, no person.  A key that is no entity plural, a missing,
 empty or null persons object: situation error, before anything else is looked at. -/
 theorem C12_refuses_unknown_entity (sys : Sys) (dp : Option String) (params : List (DKey × Doc)) (hasAxes : Bool) :
@@ -614,7 +662,12 @@ theorem C12_refuses_unknown_entity (sys : Sys) (dp : Option String) (params : Li
     rcases hp with hn | ⟨pj, hs, ht⟩
     · rw [hn]
     · rw [hs]; simp [ht]
+end OFCore
+namespace OFCore.Bld
 
+end OFCore.Bld
+namespace OFCore
+open Bld in
 /-- a group kind is refused as soon as its instances list an unknown person, list a person twice
 (in one role, two roles or two groups), give too many holders to a role, or list something that
 is not text -/
@@ -635,7 +688,12 @@ theorem C12_refuses_membership (sys : Sys) (dp : Option String) (g : GroupKind) 
     rw [hm] at hm'; cases hm'
   · obtain ⟨ikvs', ho', _⟩ := hmax kv hkv
     rw [ho] at ho'; cases ho'
+end OFCore
+namespace OFCore.Bld
 
+end OFCore.Bld
+namespace OFCore
+open Bld in
 /-- the persons are refused as soon as one instance names an unknown variable or a variable of
 another entity, spells a period that does not parse, or gives a value that `checkSetValue`
 refuses (text for a number, unknown enum name, impossible date, a list or an object as a value:
@@ -674,7 +732,12 @@ theorem C12_refuses_person_input (sys : Sys) (dp : Option String) (kvs : List (D
       · simp only at hval; rw [he] at hval; cases hval
   · rw [hs] at hvar; cases hvar
     rw [hp'] at hpairs; cases hpairs
+end OFCore
+namespace OFCore.Bld
 
+end OFCore.Bld
+namespace OFCore
+open Bld in
 /-- what `checkSetValue` refuses with a situation error, class by class of the statement -/
 theorem C12_refuses_value (var : Var) :
     -- a name that is not a member of the enumeration
@@ -722,7 +785,12 @@ theorem C12_refuses_value (var : Var) :
     unfold checkSetValue
     rw [hv]
     simp [dateOfText, hl, hy, hd, Except.map]
+end OFCore
+namespace OFCore.Bld
 
+end OFCore.Bld
+namespace OFCore
+open Bld in
 /-- **period mismatch** (the instance of `set_input` run by the driver): a variable without
 `set_input` attribute that is not eternal refuses — with the situation error the builder makes of
 `PeriodMismatchError` — a period of another unit or of more than one unit, and `ETERNITY`;
@@ -769,5 +837,122 @@ theorem C12_refuses_period_mismatch (var : Var) (hr : var.rule = .absent) (hne :
           simp only at hc
           unfold holderSet at hc
           rw [if_pos hl] at hc; cases hc
+end OFCore
+namespace OFCore.Bld
+
+
+end OFCore.Bld
+namespace OFCore
+open Bld in
+/-- **C12_refuses.**  The two halves together, for the inputs of the persons: a document whose
+persons object holds an instance with an unknown variable, a variable of another entity, a period
+key that does not parse or a value `checkSetValue` refuses is not built, and the error is not an
+ordinary exception (situation error; `unmodelled` only when the document leaves the value forms of
+the model).  The other classes: `C12_refuses_unknown_entity` (exactly `situation`),
+`C12_refuses_membership` with `C12_refuses_class`, `C12_refuses_value`, `C12_refuses_period_mismatch`. -/
+theorem C12_refuses (sys : Sys) (hsys : sys.RolesOK) (dp : Option String) (params : List (DKey × Doc))
+    (hasAxes : Bool) (kvs : List (DKey × Doc)) (hpersons : lookupS sys.personPlural params = some (.obj kvs))
+    (idk : DKey) (vars : List (DKey × Doc)) (hi : (idk, Doc.obj vars) ∈ kvs)
+    (vk : DKey) (vd : Doc) (hv : (vk, vd) ∈ vars)
+    (hbad : sys.var? vk.text = none ∨ (∃ var, sys.var? vk.text = some var ∧ var.entity ≠ sys.personKey) ∨
+      (∃ var pvs k x, sys.var? vk.text = some var ∧ variablePairs dp vd = some pvs ∧ (k, x) ∈ pvs ∧
+        ((∃ err, parseKey k = .error err) ∨ (x.isNull = false ∧ ∃ e, checkSetValue var x = .error e))) ∨
+      (∃ var, sys.var? vk.text = some var ∧ variablePairs dp vd = none)) :
+    ∃ e, buildEntities sys dp params hasAxes = .error e ∧ e ≠ .other := by
+  cases hb : buildEntities sys dp params hasAxes with
+  | error e => exact ⟨e, rfl, C12_refuses_class sys hsys dp params hasAxes e hb⟩
+  | ok st =>
+    exfalso
+    unfold buildEntities at hb
+    split at hb
+    · cases hb
+    · rw [hpersons] at hb
+      simp only at hb
+      split at hb
+      · cases hb
+      · split at hb
+        · cases hb
+        · rename_i pids pws hp
+          exact C12_refuses_person_input sys dp kvs idk vars hi vk vd hv hbad (pids, pws) hp
+end OFCore
+namespace OFCore.Bld
+
+/-! ## the hypotheses are satisfiable: one concrete situation -/
+
+def exHousehold : GroupKind := ⟨"household", "households",
+  [⟨"parent", some "parents", some 2, ["first_parent", "second_parent"]⟩, ⟨"child", some "children", none, []⟩]⟩
+def exSalary : Var := ⟨"salary", "person", .float, .month, .num 0, .absent⟩
+def exStatus : Var := ⟨"status", "person", .enum ["single", "couple"], .month, .enum 0, .absent⟩
+def exSys : Sys := ⟨"person", "persons", [exHousehold],
+  [exSalary, ⟨"rent", "household", .float, .month, .num 0, .absent⟩, exStatus,
+   ⟨"birth", "person", .date, .eternity, .date 719163, .absent⟩]⟩
+def exPersons : List (DKey × Doc) :=
+  [(.s "a", .obj [(.s "salary", .obj [(.s "month:2018-01", .int 100)])]),
+   (.s "b", .obj [(.s "salary", .obj [(.s "2018-01", .num (5/2))])]), (.s "c", .obj [])]
+def exPersons' : List (DKey × Doc) :=
+  [(.s "a", .obj [(.s "salary", .obj [(.s "2018-01", .int 100)])]),
+   (.s "b", .obj [(.s "salary", .obj [(.s "month:2018-01:1", .num (5/2))])]), (.s "c", .obj [])]
+def exHouseholds : List (DKey × Doc) :=
+  [(.s "h", .obj [(.s "parents", .arr [.str "b", .str "a"]), (.s "rent", .obj [(.s "2018-01", .int 5)])])]
+def exJan : Period := ⟨.month, ⟨2018, 1, 1⟩, 1⟩
+def exWs : List Write :=
+  [⟨"salary", "2018-01".toList, 0, .num 100, 3, .num 0⟩, ⟨"salary", "2018-01".toList, 1, .num (5/2), 3, .num 0⟩]
+
+-- C12_value_placed, C12_entities: three persons, two values under two spellings of January 2018
+example : addPersonEntity exSys none (.obj exPersons) = .ok (["a", "b", "c"], exWs) := by decide +kernel
+example : parseKey (.s "month:2018-01") = .ok exJan ∧ exJan.text = "2018-01".toList := by decide +kernel
+example : alGet (applyWrites [] exWs) ("salary", exJan.text) = some [.num 100, .num (5/2), .num 0] := by
+  decide +kernel
+example : ∃ val arr, checkSetValue exSalary (.int 100) = .ok val ∧
+    alGet (applyWrites [] exWs) (exSalary.name, exJan.text) = some arr ∧
+    arr.length = exPersons.length ∧ arr[(["a", "b", "c"] : List String).idxOf "a"]? = some val :=
+  (C12_value_placed exSys none exPersons ["a", "b", "c"] exWs (by decide +kernel) [] _ (.s "a") _ rfl
+    (by decide) [] [] (.s "salary") _ rfl (by simp) exSalary (by decide +kernel) _ [] [] rfl
+    (.s "month:2018-01") (.int 100) rfl rfl exJan (by decide +kernel) (by simp)).2
+-- C12_membership_roles, C12_own_group: b and a are the two parents of h (sub-roles by index), c is left out
+example : (addGroupEntity exSys none exHousehold ["a", "b", "c"] (.obj exHouseholds) []).toOption.map
+    (fun r => (r.1.ids, r.1.memb, r.1.roles)) =
+    some (["h", "c"], [0, 0, 1], ["second_parent", "first_parent", "first_parent"]) := by decide +kernel
+example : leftOut exHousehold ["a", "b", "c"] exHouseholds = ["c"] := by decide +kernel
+-- finding F-C12i: a declared group named after a person left out receives that person
+example : (addGroupEntity exSys none exHousehold ["a", "b"] (.obj [(.s "a", .obj [(.s "parents", .arr [.str "b"])])]) []
+    ).toOption.map (fun r => (r.1.ids, r.1.memb)) = some (["a", "a"], [0, 0]) := by decide +kernel
+-- C12_longer_fills_gaps: month, three months, year are flushed in that order
+example : (sortedPeriods [(("dv", "2018".toList), [.num 120]), (("dv", "month:2018-01:3".toList), [.num 30]),
+    (("dv", "2018-01".toList), [.num 5])] "dv").toOption.map (fun ps => ps.map Period.text) =
+    some ["2018-01".toList, "month:2018-01:3".toList, "2018".toList] := by decide +kernel
+-- C12_spelling_invariant: the two spellings of the same document are related, and both are built
+example : All₂ TopEq [(.s "persons", .obj exPersons)] [(.s "persons", .obj exPersons')] := by
+  refine .cons ⟨rfl, Or.inr ⟨_, _, rfl, rfl, ?_⟩⟩ .nil
+  refine .cons ⟨rfl, Or.inr ⟨_, _, rfl, rfl, ?_⟩⟩ (.cons ⟨rfl, Or.inr ⟨_, _, rfl, rfl, ?_⟩⟩ (.cons ⟨rfl, Or.inl rfl⟩ .nil))
+  · exact .cons ⟨rfl, Or.inr ⟨_, _, rfl, rfl, .cons ⟨by decide +kernel, rfl⟩ .nil⟩⟩ .nil
+  · exact .cons ⟨rfl, Or.inr ⟨_, _, rfl, rfl, .cons ⟨by decide +kernel, rfl⟩ .nil⟩⟩ .nil
+example : (buildFromDict exSys none stdSetInput (.obj [(.s "persons", .obj exPersons), (.s "households", .obj exHouseholds)])
+    ).toOption.map (fun s => s.store.map (fun e => (e.1.1, e.1.2.text, e.2))) =
+    some [("salary", "2018-01".toList, [.num 100, .num (5/2), .num 0]), ("rent", "2018-01".toList, [.num 5, .num 0])] := by
+  decide +kernel
+-- C12_axes_concat: two copies, the axis value on the first person of each copy
+example : strideSet (tile 2 [.num 9, .num 0]) 0 2 [.num 1, .num 3] = .ok [.num 1, .num 0, .num 3, .num 0] := by
+  decide +kernel
+example : (expandEnt 2 ⟨"household", "households", false, ["h", "c"], [0, 0, 1], ["p", "p", "q"]⟩).memb
+    = [0, 0, 1, 2, 2, 3] := by decide +kernel
+-- C12_refuses: unknown entity, unknown variable, unknown enum name, impossible date, text for a number,
+-- unparsable period, duplicate membership, too many parents
+example : buildEntities exSys none [(.s "persons", .obj exPersons), (.s "companies", .obj [])] false = .error .situation :=
+  (C12_refuses_unknown_entity exSys none _ false).1 (by decide +kernel)
+example : exSys.RolesOK := by intro g hg; simp [exSys] at hg; subst hg; decide
+example : exSys.var? "zzz" = none := by decide +kernel
+example : checkSetValue exStatus (.str "widowed") = .error .situation := by decide +kernel
+example : checkSetValue ⟨"birth", "person", .date, .eternity, .date 719163, .absent⟩ (.str "2018-02-30") = .error .situation := by
+  decide +kernel
+example : checkSetValue exSalary (.str "abc") = .error .situation ∧ checkSetValue exSalary (.str "1 +") = .error .situation ∧
+    checkSetValue exSalary (.str "2018-01-01") = .error .situation ∧ checkSetValue exSalary (.str "2*3+1.5") = .ok (.num (15/2)) := by
+  decide +kernel
+example : (parseKey (.s "2018-13")).toOption = none ∧ (parseKey (.s "month:2018")).toOption = none ∧
+    (parseKey (.s "abc")).toOption = none := by decide +kernel
+example : ¬ (listedPersons exHousehold [(.s "h", .obj [(.s "parents", .arr [.str "a"]), (.s "children", .arr [.str "a"])])]).Nodup := by
+  decide +kernel
+example : (roleDocs exHousehold [(.s "parents", .arr [.str "a", .str "b", .str "c"])]).all maxOk = false := by decide +kernel
+example : stdSetInput [] exSalary 1 ⟨.year, ⟨2018, 1, 1⟩, 1⟩ [.num 3] = .error .situation := by decide +kernel
 
 end OFCore.Bld
